@@ -890,6 +890,20 @@ def r107(facts, res):
                                     z = [tb for v, tb in t['targets'] if v == 0]
                                     tgt = t['otherwise'] if d[2]['bin'] == 'Eq' else (z[0] if z else None)
                                     if tgt is not None:
+                                        # `let nl = c == '\n' || c == '\r'`: this edge only records the answer in a bool that is tested
+                                        # later - that later test is the site
+                                        recorded = [st['lhs']['l'] for st in b.blocks[tgt]['stmts'] if st['k'] == 'assign' and not st['lhs']['p']
+                                                    and b.lty(st['lhs']['l']) == 'bool' and (op_const(st['rv'].get('use', {})) or {}).get('int') == 1]
+                                        later = any(b.term(x2)['k'] == 'switch' and op_local(b.term(x2)['on']) is not None
+                                                    and b.root(op_local(b.term(x2)['on']), through=(), stop_named=False)[0] in recorded for x2 in reach)
+                                        if recorded and later:
+                                            for x2 in sorted(reach):
+                                                t2 = b.term(x2)
+                                                if t2['k'] == 'switch' and op_local(t2['on']) is not None and b.root(op_local(t2['on']), through=(), stop_named=False)[0] in recorded:
+                                                    s2 = (('cmp', x2, t2['otherwise'], op_local(x), None))
+                                                    if s2 not in sites:
+                                                        sites.append(s2)
+                                            continue
                                         sites.append(('cmp', bb, tgt, op_local(x), None))
             elif t['k'] == 'call' and cname(t) in FINDERS and len(t['args']) >= 2 and 'str' in (t['callee'].get('self_ty') or ''):
                 if not _is_nl_pattern(b, t['args'][1]) or t['ret'] is None:
